@@ -253,6 +253,25 @@ def generate(rng, tier):
         add("31/12/1999", "en", "set-date-rule-impossible", pre=pre, expect={"t": "notdate"}, ymd=[1999, 31, 12])
         add("march 5, 2021", "en", "set-date-rule", pre=pre, expect={"t": "date", "days": daynum(2021, 3, 5)}, dflt=False)
 
+    # a typed date denotes that calendar date under EVERY configured default zone (east and west of UTC), alone and in
+    # arithmetic: the zone moves clock times, never a calendar date
+    for zone in ("CET", "GMT+1", "GMT+5:30", "GMT+12", "GMT+14", "EST", "GMT-7", "GMT-11:30"):
+        pre = [{"op": "set_tz", "v": zone}]
+        for lang in ("en", "tr"):
+            y, m, d = pick_date(rng, now_year)
+            t, dflt = date_text(rng, lang, y, m, d, now_year)
+            add(t, lang, "read-zone-" + lang, pre=pre, expect={"t": "date", "days": daynum(y, m, d)}, dflt=dflt)
+        add("5 jan 2021", "en", "read-zone-en", pre=pre, expect={"t": "date", "days": daynum(2021, 1, 5)}, dflt=False)
+        add("1 jan 2021", "en", "read-zone-en", pre=pre, expect={"t": "date", "days": daynum(2021, 1, 1)}, dflt=False)
+        add("31 dec 2021 + 1 day", "en", "arith-zone", pre=pre, expect={"t": "date", "days": daynum(2022, 1, 1)}, dflt=False)
+        add("1/3/2020 - 1 day", "en", "arith-zone", pre=pre, expect={"t": "date", "days": daynum(2020, 2, 29)}, dflt=False)
+        add("5 jan 2021 to 7 jan 2021", "en", "diff-zone", pre=pre,
+            expect={"t": "diff", "a": daynum(2021, 1, 5), "b": daynum(2021, 1, 7)})
+    # date + a duration with a year part AND a month part (each step alone is exercised by the stream below)
+    for text, ymd in (("5 jan 2021 + 1 year 3 months", (2022, 4, 5)), ("5 jan 2021 + 14 months", (2022, 3, 5)),
+                      ("15 nov 2021 + 2 years 2 months", (2024, 1, 15)), ("15 nov 2021 + 2 months", (2022, 1, 15)),
+                      ("5 jan 2021 + 1 year", (2022, 1, 5)), ("10 mar 2020 + 1 year 1 month 1 day", (2021, 4, 11))):
+        add(text, "en", "arith-year-month", expect={"t": "date", "days": daynum(*ymd)}, dflt=False)
     while len(cases) < n:
         lang = "en" if rng.random() < 0.6 else "tr"
         k = rng.random()
